@@ -3567,3 +3567,161 @@ func ruleFoldBufferCoversWorstCase(r *Report, rule string) {
 		undecidedf("Filter: output buffer allocation not found")
 	}
 }
+
+// ruleFilteringWrappersFilterEveryResult (K5): a searcher that wraps a child and
+// a predicate (FilteringSearcher, the custom filter searcher) may hand a
+// DocumentMatch to its caller only if the predicate accepted it.  In Next and
+// Advance every returned non-nil match is (a) a variable on a path guarded by a
+// true call of the predicate on that same variable, or (b) the result of the
+// wrapper's own Next/Advance (which filters).  Returning the child's
+// Next/Advance result directly by-passes the filter.
+func ruleFilteringWrappersFilterEveryResult(r *Report, rule string) {
+	p := r.P
+	n := 0
+	for _, tn := range []string{"FilteringSearcher", "CustomFilterSearcher"} {
+		for _, mn := range []string{"Next", "Advance"} {
+			fi := p.funcs["search/searcher.(*"+tn+")."+mn]
+			if fi == nil || fi.Decl.Body == nil {
+				continue
+			}
+			r.Fn(fi)
+			info := fi.Pkg.TypesInfo
+			recv := recvObj(fi)
+			g := buildCFG(info, fi.Decl.Body)
+			for _, rs := range returnsOf(fi.Decl.Body) {
+				if len(rs.Results) == 0 || len(rs.Results) > 2 || isNilIdent(info, rs.Results[0]) {
+					continue
+				}
+				if len(rs.Results) == 1 {
+					if _, isCall := ast.Unparen(rs.Results[0]).(*ast.CallExpr); !isCall {
+						continue
+					}
+				}
+				n++
+				res := ast.Unparen(rs.Results[0])
+				ok, why := false, ""
+				if c, isCall := res.(*ast.CallExpr); isCall {
+					if sel, isSel := ast.Unparen(c.Fun).(*ast.SelectorExpr); isSel && objOf(info, sel.X) == recv && (sel.Sel.Name == "Next" || sel.Sel.Name == "Advance") {
+						ok = true
+					} else {
+						why = "it returns " + exprStr(c) + " unfiltered"
+					}
+				} else if o := objOf(info, res); o != nil {
+					// guarded by a true predicate call that takes this variable
+					for _, fct := range g.GuardsOf(rs) {
+						if c, isCall := ast.Unparen(fct.Expr).(*ast.CallExpr); isCall && fct.Truth {
+							for _, a := range c.Args {
+								if objOf(info, a) == o {
+									ok = true
+								}
+							}
+						}
+						// `keep, err := pred(ctx, m)` ... `if keep { return m }`
+						if id, isID := ast.Unparen(fct.Expr).(*ast.Ident); isID && fct.Truth {
+							ko := info.ObjectOf(id)
+							ast.Inspect(fi.Decl.Body, func(y ast.Node) bool {
+								as, isAs := y.(*ast.AssignStmt)
+								if !isAs || len(as.Rhs) != 1 || len(as.Lhs) < 1 || objOf(info, as.Lhs[0]) != ko {
+									return true
+								}
+								if c, isCall := as.Rhs[0].(*ast.CallExpr); isCall && g.DominatesNode(as, rs) {
+									for _, a := range c.Args {
+										if objOf(info, a) == o {
+											ok = true
+										}
+									}
+								}
+								return true
+							})
+						}
+					}
+					if !ok {
+						why = "the returned match " + o.Name() + " is not on a path where the predicate accepted it"
+					}
+				}
+				r.Ob(rule, fi.Name+"/returned-match-passed-the-filter-"+exprShort(res), rs.Pos(), ok, tn+"."+mn+" may only return matches the predicate accepted (or delegate to its own Next/Advance, which filter): "+why+". Every geo post-filter (distance, box, polygon, shape relation) and the boolean filter clause rely on this wrapper; a by-pass returns candidates outside the shape whenever the wrapper is advanced by a conjunction")
+			}
+		}
+	}
+	if n < 3 {
+		undecidedf("filtering-wrapper rule matched %d returns", n)
+	}
+}
+
+// ruleCarryLoopCoversIndexZero (K8): byte-string successor / carry loops
+// (`for i := len(x)-1; ...; i--` that read or bump x[i]) must run down to and
+// including index 0.  Stopping at 1 leaves the most significant byte out: for
+// inputs whose only non-0xff byte is the first one (one-byte prefixes such as
+// upsidedown's row-type prefixes) no successor is found and the scan restarts
+// from the smallest key / runs without an upper bound.
+func ruleCarryLoopCoversIndexZero(r *Report, rule string, pkgFilter func(rel string) bool, floor int) {
+	p := r.P
+	n := 0
+	for _, fi := range p.flist {
+		if fi.Decl.Body == nil || !pkgFilter(relPkg(fi.Pkg.PkgPath)) {
+			continue
+		}
+		info := fi.Pkg.TypesInfo
+		ast.Inspect(fi.Decl.Body, func(x ast.Node) bool {
+			fs, ok := x.(*ast.ForStmt)
+			if !ok || fs.Init == nil || fs.Cond == nil || fs.Post == nil {
+				return true
+			}
+			init, ok := fs.Init.(*ast.AssignStmt)
+			if !ok || len(init.Lhs) != 1 || len(init.Rhs) != 1 {
+				return true
+			}
+			iv := objOf(info, init.Lhs[0])
+			be, ok := ast.Unparen(init.Rhs[0]).(*ast.BinaryExpr)
+			if !ok || be.Op != token.SUB || iv == nil {
+				return true
+			}
+			lc, ok := ast.Unparen(be.X).(*ast.CallExpr)
+			if !ok || calleeBuiltin(info, lc) != "len" {
+				return true
+			}
+			if k, isC := intConst(info, be.Y); !isC || k != 1 {
+				return true
+			}
+			post, ok := fs.Post.(*ast.IncDecStmt)
+			if !ok || post.Tok != token.DEC || objOf(info, post.X) != iv {
+				return true
+			}
+			// the body indexes the same slice with the loop variable
+			subj := exprStr(lc.Args[0])
+			uses := false
+			ast.Inspect(fs.Body, func(y ast.Node) bool {
+				if ix, ok := y.(*ast.IndexExpr); ok && exprStr(ix.X) == subj && objOf(info, ix.Index) == iv {
+					uses = true
+				}
+				return true
+			})
+			if !uses {
+				// the copy made from it (rv := make(len(in)); copy(rv,in)) is indexed instead: accept any x[i]
+				ast.Inspect(fs.Body, func(y ast.Node) bool {
+					if ix, ok := y.(*ast.IndexExpr); ok && objOf(info, ix.Index) == iv {
+						uses = true
+					}
+					return true
+				})
+			}
+			if !uses {
+				return true
+			}
+			n++
+			r.Fn(fi)
+			cond, ok2 := ast.Unparen(fs.Cond).(*ast.BinaryExpr)
+			good := false
+			if ok2 && objOf(info, cond.X) == iv {
+				if k, isC := intConst(info, cond.Y); isC {
+					good = (cond.Op == token.GEQ && k == 0) || (cond.Op == token.GTR && k < 0)
+				}
+			}
+			r.Ob(rule, fi.Name+"/descending-loop-over-"+subj+"-includes-index-0", fs.Pos(), good, "the carry loop over "+subj+" stops at `"+exprStr(fs.Cond)+"`; it has to include index 0 (i >= 0), otherwise an input whose only incrementable byte is the first one gets no successor")
+			return true
+		})
+	}
+	if n < floor {
+		undecidedf("carry-loop rule matched %d loops (floor %d)", n, floor)
+	}
+}
